@@ -26,6 +26,8 @@ type c14Case struct {
 	WorkDir string   `json:"work_dir"` // "" | sub (run directory)
 	DSSE    bool     `json:"dsse"`
 	Broken  string   `json:"broken"` // "" | missing-executable | empty-argv | not-executable | directory
+	RelCmd  bool     `json:"rel_cmd"` // the command is named relative to the run directory (./emit-local)
+	Linger  int      `json:"linger"`  // >0: the command leaves a background process holding the streams for that many ms
 }
 
 var c14Sizes = []int{0, 1, 61, 122, 6100, 67100, 4095, 4096, 65535, 65536, 65537, 70000, 131072, 200000, 1 << 20, 4 << 20}
@@ -59,6 +61,10 @@ func c14Gen(t *rapid.T) c14Case {
 			budget -= size
 			c.Ops = append(c.Ops, kind+":"+strconv.Itoa(size))
 		}
+	}
+	c.RelCmd = c.WorkDir != "" && rapid.Bool().Draw(t, "relcmd")
+	if rapid.IntRange(0, 14).Draw(t, "linger") == 0 {
+		c.Linger = rapid.SampledFrom([]int{700, 900}).Draw(t, "lingerms")
 	}
 	switch rapid.IntRange(0, 5).Draw(t, "end") {
 	case 0:
@@ -133,7 +139,17 @@ func c14Run(c c14Case, r *hx.Rec) error {
 	var args []string
 	switch c.Broken {
 	case "":
-		args = append([]string{emit}, c.Ops...)
+		cmdName := emit
+		if c.RelCmd && c.WorkDir != "" {
+			// an executable that exists in the run directory only, named relative to it
+			data, _ := os.ReadFile(emit)
+			_ = os.WriteFile(filepath.Join(dir, c.WorkDir, "emit-local"), data, 0o755)
+			cmdName = "./emit-local"
+		}
+		args = append([]string{cmdName}, c.Ops...)
+		if c.Linger > 0 {
+			args = append(args, fmt.Sprintf("bg:%d:100", c.Linger))
+		}
 		if c.End != "" {
 			args = append(args, c.End)
 		}
@@ -184,7 +200,10 @@ func c14Run(c c14Case, r *hx.Rec) error {
 		r.Label("over-pipe-buffer")
 		r.Nontrivial()
 	}
-	r.Key("%v|%s|%s|%s|%v|%s", c.Ops, c.End, c.Via, c.WorkDir, c.DSSE, c.Broken)
+	if c.RelCmd {
+		r.Label("relative-command")
+	}
+	r.Key("%v|%s|%s|%s|%v|%s|%v|%d", c.Ops, c.End, c.Via, c.WorkDir, c.DSSE, c.Broken, c.RelCmd, c.Linger)
 
 	deadline := 30 * time.Second
 	res := hx.Supervise([]string{"run", reqPath, respPath}, dir, deadline)
@@ -221,6 +240,22 @@ func c14Run(c c14Case, r *hx.Rec) error {
 	}
 	if resp.Err != "" {
 		return fmt.Errorf("%s failed for a command that starts and terminates: %s (script %v %s)", c.Via, resp.Err, c.Ops, c.End)
+	}
+	if c.Linger > 0 {
+		// a background process keeps the streams for a while: what is asserted is the exact exit
+		// status of the command itself and that everything it wrote before exiting is there
+		r.Label("lingering-writer")
+		r.Nontrivial()
+		if afterClose {
+			return nil
+		}
+		if resp.StdoutLen < len(wantOut) || resp.StderrLen < len(wantErr) {
+			return fmt.Errorf("output written before the command ended is missing: stdout %d of >= %d, stderr %d of >= %d bytes", resp.StdoutLen, len(wantOut), resp.StderrLen, len(wantErr))
+		}
+		if !signalled && (!resp.HasReturn || int(resp.ReturnValue) != wantExit) {
+			return fmt.Errorf("return-value %v, the command (which left a background process behind) exited with status %d", resp.ReturnValue, wantExit)
+		}
+		return nil
 	}
 	if afterClose {
 		// writing to a closed stream makes emit exit with status 97: expectation is the exit only
